@@ -67,6 +67,10 @@ def worker(pid, jobname, tier, seed, known):
         def run(V):
             return fn(V, **params)
         res = core.explore(run, V, job.opts, known)
+        try:
+            signal.alarm(0)
+        except (ValueError, OSError):
+            pass
         st = res.stats
         funcs = []
         if hasattr(h, 'encoded_functions'):
